@@ -550,6 +550,13 @@ def _apply_fs(op, sandbox):
     elif k == "shrink":
         with open(path, "r+b") as fd:
             fd.truncate(op["to"])
+    elif k == "dangle":
+        os.makedirs(os.path.dirname(path), exist_ok=True)
+        if not os.path.lexists(path):
+            os.symlink("nowhere/at/all", path)
+    elif k == "undangle":
+        if os.path.islink(path):
+            os.remove(path)
 
 
 class C09:
@@ -640,6 +647,20 @@ class C09:
         # guarantee the interesting shape early
         hist.append(mk_mut())
         hist.append(mk_create())
+        if rng.random() < 0.12:
+            # a walk that fails half-way (dangling symbolic link in a sub-directory), the cause repaired, then the
+            # same walk again: whatever the failed walk left behind in the process may not matter
+            fresh_id[0] += 1
+            live[f"sub/keep{fresh_id[0]}"] = 300
+            hist.append({"op": "add", "path": f"p/sub/keep{fresh_id[0]}", "size": 300, "cseed": rng.randrange(1 << 30)})
+            hist.append({"op": "dangle", "path": "p/sub/zz-dangling"})
+            c1 = mk_create()
+            if c1["out"]:
+                metas.pop()                       # may fail: not a metafile later steps can rely on
+            c1["path"] = rng.choice(["p", "p/sub"])
+            hist.append(c1)
+            hist.append({"op": "undangle", "path": "p/sub/zz-dangling"})
+            hist.append(mk_create())
         if rng.random() < 0.35 and metas:
             # targeted shape: an operation that hashes candidates, a same-size in-place rewrite, the same operation again
             m, _ = metas[-1]
@@ -760,7 +781,9 @@ class C09:
         try:
             for n, op in enumerate(case["history"]):
                 kinds.append(op["op"] + (":" + op["route"][-1] if op["op"] == "create" else ""))
-                if op["op"] in ("add", "delete", "grow", "shrink", "rewrite"):
+                if op["op"] in ("add", "delete", "grow", "shrink", "rewrite", "dangle", "undangle"):
+                    if op["op"] == "dangle":
+                        counters["failed_walk_then_repaired_histories"] = 1
                     _apply_fs(op, SA)
                     _apply_fs(op, SB)
                     if seen_create:
